@@ -59,6 +59,9 @@ for _p in ("C01", "C03"):
     fixed("F50", _p, "a2c4d82", "C01.unit-merge|unit-merge|Switch-inputs|input", "`match t { 1 => bump(), _ => { x = x + 10.0 } }`: same panic in the Switch lowering for an arm without a value (findings/repro/F50_*.mmm)")
 fixed("F51", "C14", "0b515b8", "C14.keyword-space|kw|print_if_expr|If", "mimium-fmt printed `let y = if gate { 1.0 } else { 0.0 }` as `let y = ifgate { .. }` (keyword and an unparenthesised condition glued together: a different program); findings/repro/F51_*.mmm")
 fixed("F52", "C14", "74fa295", "C14.list-items|items|print_grouped_list", "mimium-fmt printed `fn f(x:float, g = 2.0, h)` as `fn f(x, :float, g, =2.0, h)`: the shared list printer skipped the comma tokens and put its own separator after every child, also inside a typed parameter or a default value (a different, unparsable program); findings/repro/F52_*.mmm")
+fixed("F53", "C04", "ab82728", "C04.assign-protocol|kind|IfExpr", "`if (now > 1.0) x = 5.0 else x = 7.0` (branches without braces): the parser accepts it, the lowering took the children one by one, made an error node of the AssignExpr sibling without any diagnostic, and the back ends crashed (`Instruction not implemented: Error` on the VM, an invalid module on WASM); findings/repro/F53_if_*.mmm")
+fixed("F53", "C04", "ab82728", "C04.assign-protocol|kind|MatchArm", "`_ => x = x + 10.0`: the arm body was lowered as `x` and the assignment dropped silently (0,1,1,1 instead of 10,11,21,31 on both back ends); findings/repro/F53_match_*.mmm")
+fixed("F53", "C04", "ab82728", "C04.assign-protocol|kind|MatchExpr", "same commit (the match lowering reaches the sequence-aware arm lowering)")
 fixed("F21", "C01", "52a554f", "C01.ops|truthiness|JmpIfNeg|F64Const+F64Gt", "`if` on a NaN condition took the then-branch on the VM (cond <= 0.0 test) and the else-branch on WASM (cond > 0.0)")
 
 # ---- C01 operator templates ---------------------------------------------------------------------------
@@ -135,6 +138,10 @@ add("F46", ["C12"], "C12.pairing|scope|compile_decision_tree", "same for payload
 
 # ---- WASM scheduler: scheduled closures are reclaimed (C11.closure-lifetime, also a VM/WASM difference) ----------
 add("F47", ["C11", "C01"], "C11.closure-lifetime|executor|generate_exec_closure_trampoline", "two self-rescheduling functions (`a@(now+2.0)` in a, `b@(now+5.0)` in b): `_mimium_exec_closure_void` restores the allocation pointer after each task, the re-scheduled closure's memory is reused by the next task, and WASM runs b where a was due: VM 0,1,101,102,102,103 … vs WASM 0,1,101,201,201,201 … (findings/repro/F47_*.mmm, run with the scheduler plugin)")
+
+
+# ---- assignment protocol (C04.assign-protocol) ----------------------------------------------------------------
+add("F55", ["C04"], "C04.assign-protocol|kind|RecordExpr", "`let r = {a = x = 1.0, b = 2.0}`: the record literal's lowering reads `a = x` and drops `= 1.0` without any diagnostic (x stays 0.0 on both back ends); findings/repro/F53_residual_record_field_assignment.mmm")
 
 
 def main():
